@@ -476,7 +476,7 @@ func runC01(c *Ctx) {
 				return false, false
 			})
 			g, path := Guarded(sm.Blocks[0], rc, pass, nil)
-			c.Check(g && len(pass) > 0, "R6", "Smudge:remove-only-on-size-mismatch", p.InstrPos(rc), "a local object is removed only when its size differs from the pointer's", "a local object can be removed without its size having been compared with the pointer's size: "+path)
+			c.Check(g && nonVacuous(pass), "R6", "Smudge:remove-only-on-size-mismatch", p.InstrPos(rc), "a local object is removed only when its size differs from the pointer's", "a local object can be removed without its size having been compared with the pointer's size: "+path)
 		}
 		// the local read happens only when the sizes were compared equal: cut the NEQ-false edges? covered by the above + download branch
 	}
@@ -519,7 +519,7 @@ func runC01(c *Ctx) {
 					waited = true
 				}
 			}
-			c.Check(g && len(pass) > 0 && waited, "R6", name+":read-after-clean-download", p.InstrPos(rc), "the object is read only after the queue was waited for and reported no errors", "the downloaded object can be read although the transfer queue reported errors (or was not waited for): "+path)
+			c.Check(g && nonVacuous(pass) && waited, "R6", name+":read-after-clean-download", p.InstrPos(rc), "the object is read only after the queue was waited for and reported no errors", "the downloaded object can be read although the transfer queue reported errors (or was not waited for): "+path)
 		}
 	}
 
@@ -547,7 +547,7 @@ func runC01(c *Ctx) {
 					}
 					return false, false
 				})
-				if g, _ := Guarded(sm.Blocks[0], r, pass, nil); g && len(pass) > 0 {
+				if g, _ := Guarded(sm.Blocks[0], r, pass, nil); g && nonVacuous(pass) {
 					good = true
 				}
 			}
